@@ -219,6 +219,8 @@ def run(ck):
     ck.rule("C17.R2", "exactly one span callsite/construction with the configured metadata", floor=FLOOR_FNS)
     ck.rule("C17.R3", "body (each poll) runs inside the span; guard outlives the body; ret/err events inside", floor=FLOOR_FNS)
     ck.rule("C17.R4", "the expansion's prelude only reads parameters", floor=FLOOR_FNS)
+    ck.rule("C17.R5", "each span field carries its value the configured way: `?` through field::debug, `%` through field::display, "
+            "otherwise the value itself, a bare name empty", floor=5)
     if len(expect) < FLOOR_FNS:
         ck.bad("C17.R1", "fixture corpus size", "fixtures/fx_instrument/expect.json", "only %d instrumented fixtures (floor %d)" % (len(expect), FLOOR_FNS))
     for name, exp in sorted(expect.items()):
@@ -234,6 +236,8 @@ def run(ck):
         if exp.get("ret") or exp.get("err"):
             body_isolated(ck, F, name, exp, car, A)
         r4(ck, F, name, exp, car, A)
+        if exp.get("kinds"):
+            r5(ck, F, name, exp, car)
     r3_lib(ck, L)
 
 
@@ -411,7 +415,7 @@ def r2(ck, F, name, exp, car):
     # (identifiers bound by a destructuring pattern are documented to be recorded with Debug whatever their type: the
     # corpus says how many such bindings a fixture has)
     if len(dbg_values) != exp.get("debug_value_bindings", 0):
-        problems.append("%d value-typed parameter(s) recorded through field::debug as a Debug string (%s); the fixture has %d destructured binding(s), "
+        problems.append("%d value-typed parameter(s) recorded through field::debug as a Debug string (%s); the fixture has %d destructured binding(s) or `?` fields, "
                         "the only value-typed ones that may be" % (len(dbg_values), sorted(set(dbg_values)), exp.get("debug_value_bindings", 0)))
     # construction sites
     cons = [(b, bb, SPAN_NEW[t["callee"]["path"]]) for b in bodies for bb, t in b.calls() if t["callee"].get("path") in SPAN_NEW]
@@ -450,6 +454,62 @@ def r2(ck, F, name, exp, car):
         ck.ok("C17.R2", key, nontrivial=bool(wantl), detail=got)
     else:
         ck.bad("C17.R2", key, where(car.raw["sp"]), "event callsites %s, configured %s" % (got, wantl), fn=car.path)
+
+
+def span_value_kinds(F, car):
+    """field name -> how the expansion hands its value to the span ('debug' | 'display' | 'empty' | 'value' | 'absent'),
+    decoded from the array given to FieldSet::value_set at the one span construction site; names in callsite order."""
+    bodies = [car] + F.closures_of(car)
+    cs = callsites_in(F, bodies)
+    names = [meta_summary(m)["fields"] for m in cs.values() if m is not None and meta_summary(m)["span"]]
+    cons = [(b, bb, t) for b in bodies for bb, t in b.calls() if t["callee"].get("path") in SPAN_NEW]
+    if len(names) != 1 or len(cons) != 1:
+        return None, "%d span callsites, %d construction sites" % (len(names), len(cons))
+    b, bb, t = cons[0]
+    vs = None
+    for a in t["argv"]:
+        o = b.origin(a)
+        if o[0] == "call" and o[2]["callee"].get("path") == "tracing_core::field::FieldSet::value_set":
+            vs = o[2]
+    if vs is None:
+        return None, "the span is not built from FieldSet::value_set"
+    arr = b.origin(vs["argv"][1])
+    if arr[0] != "agg" or "array" not in arr[1]["agg"]:
+        return None, "value_set's argument is not an array literal"
+    kinds = []
+    for op in arr[1]["ops"]:
+        tup = b.origin(op)
+        if tup[0] != "agg" or len(tup[1]["ops"]) != 2:
+            return None, "array element is not a (field, value) pair"
+        v = b.origin(tup[1]["ops"][1])
+        if v[0] == "agg" and v[1]["agg"].get("variant") == "None":
+            kinds.append("absent")
+            continue
+        if v[0] != "agg" or v[1]["agg"].get("variant") != "Some":
+            return None, "a pair's value is not an Option literal"
+        x = b.origin(v[1]["ops"][0])
+        if x[0] == "call" and x[2]["callee"].get("path") in ("tracing_core::field::debug", "tracing_core::field::display"):
+            kinds.append(x[2]["callee"]["path"].rsplit("::", 1)[1])
+        elif x[0] == "const" and "field::Empty" in str(x[1].get("ty")):
+            kinds.append("empty")
+        else:
+            kinds.append("value")
+    if len(kinds) != len(names[0]):
+        return None, "%d values for %d fields" % (len(kinds), len(names[0]))
+    return dict(zip(names[0], kinds)), None
+
+
+def r5(ck, F, name, exp, car):
+    key = "%s: field values rendered as configured" % name
+    got, why = span_value_kinds(F, car)
+    if got is None:
+        ck.bad("C17.R5", key, where(car.raw["sp"]), why, fn=car.path)
+        return
+    wrong = ["%s is %s, configured %s" % (f, got.get(f), k) for f, k in sorted(exp["kinds"].items()) if got.get(f) != k]
+    if wrong:
+        ck.bad("C17.R5", key, where(car.raw["sp"]), "; ".join(wrong), fn=car.path)
+    else:
+        ck.ok("C17.R5", key, fn=car.path, detail=got)
 
 
 def bb_succ_start(b, bb):
